@@ -39,6 +39,14 @@ MembersStr == {<<[kind |-> k, tag |-> t, opt |-> o[1], present |-> o[2], extra |
                  k \in {"strplain", "slicestr"}, t \in {0, 31}, o \in {<<FALSE, TRUE>>, <<TRUE, TRUE>>, <<TRUE, FALSE>>},
                  e \in {"", "utf8", "ia5", "graphic"}}
 
+\* a SEQUENCE is positional: two members may carry the same identifier -- two untagged members of one type, or a context tag
+\* used again after a mandatory member in between
+MembersSame == {<<[kind |-> a, tag |-> -1, opt |-> FALSE, present |-> TRUE, extra |-> ""],
+                  [kind |-> a, tag |-> -1, opt |-> FALSE, present |-> TRUE, extra |-> ""]>> : a \in {"int", "octets", "utf8", "bool", "enum"}}
+               \cup {<<[kind |-> a, tag |-> 0, opt |-> TRUE, present |-> p1, extra |-> ""],
+                      [kind |-> "int", tag |-> 1, opt |-> FALSE, present |-> TRUE, extra |-> ""],
+                      [kind |-> a, tag |-> 0, opt |-> TRUE, present |-> p2, extra |-> ""]>> : a \in {"int", "octets"}, p1 \in BOOLEAN, p2 \in BOOLEAN}
+
 \* a context-tagged OPTIONAL member [N] followed by an UNTAGGED member whose universal tag number is N as well
 \* (BOOLEAN 1, INTEGER 2, BIT STRING 3, OCTET STRING 4, NULL 5, ENUMERATED 10, UTF8String 12, SEQUENCE 16): class matters
 UnivOf == [bool |-> 1, int |-> 2, bits |-> 3, octets |-> 4, null |-> 5, enum |-> 10, utf8 |-> 12, struct2 |-> 16, sliceint |-> 16]
@@ -66,7 +74,7 @@ Cases ==
   \cup {[mode |-> "shape", top |-> tp, members |-> m, leaf |-> lf, seed |-> sd] :
           tp \in {"struct", "choice"}, m \in Members1 \cup Members2, lf \in Leafs, sd \in {CHOOSE z \in Seeds : TRUE}}
   \cup {[mode |-> "shape", top |-> "struct", members |-> m, leaf |-> lf, seed |-> sd] :
-          m \in MembersMixed, lf \in Leafs, sd \in {CHOOSE z \in Seeds : TRUE}}
+          m \in MembersMixed \cup MembersSame, lf \in Leafs, sd \in Seeds}
   \cup {[mode |-> "shape", top |-> tp, members |-> m, leaf |-> lf, seed |-> sd] :
           tp \in {"struct", "choice"}, m \in MembersStr, lf \in Leafs, sd \in {CHOOSE z \in Seeds : TRUE}}
 
